@@ -290,8 +290,10 @@ class ManifestEntryAUX(ManifestFileEntry):
 
     def __init__(self, aux_path, size, checksums):
         self.aux_path = aux_path
+        # plain concatenation (the exact inverse of to_list()):
+        # os.path.join() would drop the prefix for an absolute path
         super().__init__(
-                os.path.join('files', aux_path), size, checksums)
+                'files/' + aux_path, size, checksums)
 
     @classmethod
     def from_list(cls, data):
@@ -302,7 +304,7 @@ class ManifestEntryAUX(ManifestFileEntry):
 
     def to_list(self):
         ret = super().to_list(self.tag)
-        assert path_inside_dir(ret[1], 'files')
+        assert ret[1].startswith('files/')
         ret[1] = ret[1][6:]
         return ret
 
